@@ -6,7 +6,7 @@ import q, effects, inline
 from tables import *
 from rules.c08 import one
 from rules.c11 import CL
-from rules.c13 import TT, ST, UPDATE, CS, PS, FRF, events
+from rules.c13 import TT, ST, UPDATE, CS, PS, FRF, events, wait_sites
 
 RS = 'rodbus::retry::RetryStrategy::'
 D = 'rodbus::retry::Doubling'
@@ -81,12 +81,12 @@ def r3(c):
         for k, s in enumerate(sc):
             # the announcement built from this delay, and the wait started with it
             ann = [x for x, i, st in [(x_, i_, st_) for x_, i_, st_ in P.constructors(adt, variant, crate='rodbus') if P.logical_name(x_) == fn_] if q.sem(b, st['rv']['a'][0]).kind == 'call' and q.sem(b, st['rv']['a'][0]).cs is s]
-            waits = [w for w in b.calls(waiter) if q.sem(b, w.args[1]).kind == 'call' and q.sem(b, w.args[1]).cs is s]
+            waits = [w for w in wait_sites(b) if q.sem(b, w['dur']).kind == 'call' and q.sem(b, w['dur']).cs is s]
             c.ob('%s/%s#%d' % (fn_.split('::')[-1], strat, k + 1), len(ann) == 1 and len(waits) == 1,
-                 'the value returned by %s is both announced as %s(delay) and handed to %s' % (strat, variant, waiter.rsplit('::', 1)[-1]), '%d announcements, %d waits' % (len(ann), len(waits)), s.loc())
+                 'the value returned by %s is both announced as %s(delay) and the duration of the wait that follows (fail_requests_for, or a timer raced with fail_requests)' % (strat, variant), '%d announcements, %d waits' % (len(ann), len(waits)), s.loc())
             if waits:
-                ups = [cs for cs, v in events(b, adt) if v == variant and b.dominates(s.ret, cs.node) and b.dominates(cs.ret, waits[0].node)]
-                c.ob('%s/%s#%d/order' % (fn_.split('::')[-1], strat, k + 1), len(ups) >= 1, 'the announcement is made before the wait starts', '', waits[0].loc())
+                ups = [cs for cs, v in events(b, adt) if v == variant and b.dominates(s.ret, cs.node) and b.dominates(cs.ret, waits[0]['node'])]
+                c.ob('%s/%s#%d/order' % (fn_.split('::')[-1], strat, k + 1), len(ups) >= 1, 'the announcement is made before the wait starts', '', waits[0]['cs'].loc())
     check(TT + '::handle_failed_connection', CS, 'WaitAfterFailedConnect', 'after_failed_connect', FRF)
     check(TT + '::run_connection', CS, 'WaitAfterDisconnect', 'after_disconnect', FRF)
     if P.has(ST + '::try_open_and_run'):
@@ -97,12 +97,16 @@ def r3(c):
             s = one(b.calls(RS + strat), strat)
             waits = [w for w in b.calls('rodbus::server::task::SessionTask::sleep_for') if q.sem(b, w.args[1]).kind == 'call' and q.sem(b, w.args[1]).cs is s]
             c.ob('RtuServerTask/%s' % strat, len(waits) == 1, 'the RTU server sleeps for exactly the delay %s returned' % strat, '%d' % len(waits), s.loc())
-    # fail_requests_for really waits that long: deadline = now + duration
+    # fail_requests_for really waits that long: one timer made from `duration` (checked with the race in R13.5), and Ok only when it fired
     f = P.fn(FRF)
-    add = one([cs for cs in f.calls() if cs.declared == 'core::ops::arith::Add::add'], 'now + duration')
-    sl = one(f.calls('tokio::time::sleep::sleep_until'), 'sleep_until')
-    c.ob('fail_requests_for/deadline', q.is_name(f, add.args[1], 'duration') and q.sem(f, sl.args[0]).kind == 'call' and q.sem(f, sl.args[0]).cs is add and not f.in_cycle(add.node),
-         'fail_requests_for waits until now + duration (computed once)', '', add.loc())
+    ws = [w for w in wait_sites(f) if w['how'] != 'fail_requests_for']
+    okd = len(ws) == 1 and q.is_name(f, ws[0]['dur'], 'duration') and not f.in_cycle(ws[0]['node'])
+    c.ob('fail_requests_for/deadline', okd, 'fail_requests_for waits on one timer made from its duration (now + duration computed once / timeout(duration, ..))', str([w['how'] for w in ws]), loc_of(f))
+    if okd:
+        fired = set(ws[0]['fired'] or [])
+        free = f.reach_set(f.entry, avoid=fired) | {f.entry}
+        early = [x['node'] for x in q.exits(f) if not q.exit_is_failure(f, x) and x['node'] in free]
+        c.ob('fail_requests_for/full-wait', bool(fired) and not early, 'fail_requests_for returns Ok only after that timer has fired', 'early Ok exits %s' % early, loc_of(f))
     sleep_for_timer(c)
 
 
